@@ -304,46 +304,44 @@ class ObjectiveMinimizeFlowtimeSingleResource(Objective):
             name=f"FlowTimeSingleResource({resource.name}:{lower_bound}:{upper_bound})",
             expression=flowtime,
         )
+        # the busy intervals of the resource (not the tasks: an optional task that is not
+        # scheduled, or a task that runs on another selected worker, is not processed
+        # by this resource) that lie in the time_interval
+        busy_intervals = resource.get_busy_intervals()
+        in_interval = [
+            z3.And(busy_start >= 0, busy_start >= lower_bound, busy_end <= upper_bound)
+            for busy_start, busy_end in busy_intervals
+        ]
+        nothing_in_interval = z3.Not(z3.Or(in_interval))
+
         # find the max end time in the time_interval
         maxi = z3.Int(
             f"GreatestTaskEndTimeInTimePeriodForResource{resource.name}_{uid}"
         )
-
         asst_max = [
-            z3.Implies(
-                z3.And(task._end <= upper_bound, task._start >= lower_bound),
-                maxi == task._end,
-            )
-            for task in resource._busy_intervals
+            z3.And(inside, maxi == busy_end)
+            for inside, (_, busy_end) in zip(in_interval, busy_intervals)
         ]
+        asst_max.append(z3.And(nothing_in_interval, maxi == 0))
         flowtime_single_resource_indicator.append_z3_assertion(z3.Or(asst_max))
-        for task in resource._busy_intervals:
+        for inside, (_, busy_end) in zip(in_interval, busy_intervals):
             flowtime_single_resource_indicator.append_z3_assertion(
-                z3.Implies(
-                    z3.And(task._end <= upper_bound, task._start >= lower_bound),
-                    maxi >= task._end,
-                )
+                z3.Implies(inside, maxi >= busy_end)
             )
 
         # and the mini
         mini = z3.Int(
             f"SmallestTaskEndTimeInTimePeriodForResource{resource.name}_{uid}"
         )
-
         asst_min = [
-            z3.Implies(
-                z3.And(task._end <= upper_bound, task._start <= lower_bound),
-                mini == task._start,
-            )
-            for task in resource._busy_intervals
+            z3.And(inside, mini == busy_start)
+            for inside, (busy_start, _) in zip(in_interval, busy_intervals)
         ]
+        asst_min.append(z3.And(nothing_in_interval, mini == 0))
         flowtime_single_resource_indicator.append_z3_assertion(z3.Or(asst_min))
-        for task in resource._busy_intervals:
+        for inside, (busy_start, _) in zip(in_interval, busy_intervals):
             flowtime_single_resource_indicator.append_z3_assertion(
-                z3.Implies(
-                    z3.And(task._end <= upper_bound, task._start >= lower_bound),
-                    mini <= task._start,
-                )
+                z3.Implies(inside, mini <= busy_start)
             )
 
         # the quantity to optimize
